@@ -417,15 +417,14 @@ fn main() {
         for t in ["\"\\\"", "\"abc", "[\"a", "{\"k\":\"v", "{\"k", "\"\\", "[1,\"x\\\"", "\"é", "\"\\u00e9"] { extra.push(t.as_bytes().to_vec()); }
         for d in &extra {
             if std::str::from_utf8(d).is_err() { continue; }
-            let first = value(d, 0, 0);
             let r = catch_unwind(AssertUnwindSafe(|| sonic_rs::Deserializer::from_slice(d).deserialize::<sonic_rs::Value>().map(|v| v.to_string())));
             match r {
                 Err(_) => report(pid, format!("Deserializer::from_slice({}).deserialize::<Value>() panics", show(d))),
                 Ok(Ok(txt)) => {
-                    match first {
-                        None => report(pid, format!("Deserializer::from_slice({}).deserialize::<Value>() = {} although no well-formed value starts the text", show(d), txt)),
-                        Some(e) => { if want("C03") { if let Ok(want_v) = sonic_rs::from_slice::<sonic_rs::Value>(&d[..e]) { if want_v.to_string() != txt { report("C03", format!("Deserializer::from_slice({}).deserialize::<Value>() = {}, the prefix document is {}", show(d), txt, want_v.to_string())); } } } }
-                    }
+                    // one document is read from the FRONT of the text (what follows is the next document's business):
+                    // some prefix must be a well-formed text whose value this is
+                    let hit = (1..=d.len()).any(|e| is_text(&d[..e]) && sonic_rs::from_slice::<sonic_rs::Value>(&d[..e]).map(|w| w.to_string() == txt).unwrap_or(false));
+                    if !hit { report(pid, format!("Deserializer::from_slice({}).deserialize::<Value>() = {} but no prefix of the text is a well-formed document with that value", show(d), txt)); }
                 }
                 Ok(Err(_)) => {}
             }
